@@ -2,7 +2,7 @@
    engine (Async.v); hierarchical cases (tag 1) are passed to the synchronous hierarchical
    model (HsmIO), against which HierarchicalAsyncMachine is compared up to stage_view. *)
 From Coq Require Import List Arith Bool.
-From M Require Import Sx Base Flat FlatSpec FlatIO HsmIO Async.
+From M Require Import Sx Base Flat FlatSpec FlatIO Hsm HsmIO Async AsyncHsm.
 Import ListNotations.
 
 (* finite function keyed by (payload, callback), then by callback, then a default *)
@@ -140,9 +140,39 @@ Section Run.
     end.
 End Run.
 
+(* ------------------------------------------------------------------ hierarchical cases *)
+Definition e_gsev (e : gsev forest) : sx :=
+  match e with
+  | GStart it => L (N 0 :: match e_hitem it with L l => l | x => [x] end)
+  | GEnd sl cb => L [N 1; e_slot sl; N cb]
+  end.
+Definition all_gevs (tr : list (gstage forest)) : list (gsev forest) := flat_map (@gs_evs forest) tr.
+
+(* per call: [events (flat); stage_view; result; configuration] of the asynchronous hierarchical engine;
+   replies and suspension counts are keyed by the payload of the call *)
+Fixpoint harun_history (hm : hmachine) (ev : env) (suspf : cbid -> nat -> nat) (m : model)
+                       (hs : list hcall) (s : forest) : list sx :=
+  match hs with
+  | [] => []
+  | h :: rest =>
+      let c := mkCtx m (h_payload h) (hm_send_event hm) in
+      let rp := fun cb => ev cb (h_payload h) in
+      let su := fun cb => suspf cb (h_payload h) in
+      match (match h_kind h with
+             | KMay => hacan_trigger hm rp su c (h_event h) s
+             | _ => hatrigger_event hm rp su c (h_event h) s
+             end) with
+      | (tr, s', r) =>
+          L [e_list e_gsev (all_gevs tr); e_list e_hitem (gstage_view tr); e_result r; e_forest s']
+          :: harun_history hm ev suspf m rest s'
+      end
+  end.
+
 (* flat case := [0; machine; aenv; susp; mode; models [(id, initial state)];
                  history [(model, kind, event, payload)]]
-   hierarchical case := [1; case of kind 3] *)
+   hierarchical case := [1; case of kind 3; aenv; susp]: the observation of the synchronous hierarchical
+   model on the case (replies by position/callback as in kind 3), followed by the observation of the
+   asynchronous hierarchical model (replies and suspensions keyed by (payload, callback) / callback) *)
 Definition run_async_case (x : sx) : sx :=
   match x with
   | L [N 0; mcx; evx; sux; mdx; msx; hx] =>
@@ -151,6 +181,13 @@ Definition run_async_case (x : sx) : sx :=
       | Some mc, Some ev, Some su, Some md, Some ms, Some hs =>
           L [N 1; L (run_ahistory mc ev su md 200 hs (mkAW ms [] 0)); L (run_sync_history mc ev hs ms)]
       | _, _, _, _, _, _ => L [N 0]
+      end
+  | L [N 1; L [mcx; evx0; N m; inix; hx]; evx; sux] =>
+      match d_hmachine mcx, d_aenv evx, d_susp sux, d_path inix, d_list d_call hx with
+      | Some hm, Some ev, Some su, Some ini, Some hs =>
+          let f0 := initial_config hm ini in
+          L [N 2; run_hsm_case (L [mcx; evx0; N m; inix; hx]); L (harun_history hm ev su m hs f0)]
+      | _, _, _, _, _ => L [N 0]
       end
   | L [N 1; hx] => run_hsm_case hx
   | _ => L [N 0]
